@@ -67,7 +67,7 @@ theorem addSpan_cfg (s : St) (id : Nat) (tr : Tr) (root : Bool) (size : Nat) :
 theorem step_cfg (s : St) (o : Op) : (step s o).1.cfg = s.cfg := by
   cases o with
   | adv d => rfl
-  | span id root size =>
+  | span id root size kind =>
     simp only [step, processSpan]
     split
     · rfl
@@ -90,7 +90,7 @@ theorem addSpan_buf (s : St) (id : Nat) (tr : Tr) (root : Bool) (size : Nat) :
 theorem step_nodup (s : St) (o : Op) (h : AList.NoDupKeys s.buf) : AList.NoDupKeys (step s o).1.buf := by
   cases o with
   | adv d => exact h
-  | span id root size =>
+  | span id root size kind =>
     simp only [step, processSpan]
     split
     · exact AList.nodup_put _ h _ _
@@ -308,9 +308,9 @@ theorem inv_removeIds {c : Cfg} {s : St} {sp : Spec} (h : Inv c s sp) (ids : Lis
     · exact h6 id hid
 
 theorem inv_addSpan {c : Cfg} {s : St} {sp : Spec} (h : Inv c s sp) (id : Nat) (tr : Tr) (a : Arr)
-    (root : Bool) (size : Nat) (hnd : id ∉ s.decided) (hrel : Rel c s.now tr a)
+    (root : Bool) (size : Nat) (kind : Kind) (hnd : id ∉ s.decided) (hrel : Rel c s.now tr a)
     (harr : sp.arrOf id = a) :
-    Inv c (addSpan s id tr root size).1 (Spec.step c sp (.span id root size)) := by
+    Inv c (addSpan s id tr root size).1 (Spec.step c sp (.span id root size kind)) := by
   obtain ⟨h1, h2, h3, h4, h5, h6⟩ := h
   have hr := rel_addSpan c s.now tr a root size hrel
   simp only at hr
@@ -364,14 +364,14 @@ theorem inv_step {c : Cfg} {s : St} {sp : Spec} (h : Inv c s sp) (o : Op) :
     intro id tr hg
     obtain ⟨hnd, a, ha, hrel⟩ := h4 id tr hg
     exact ⟨hnd, a, ha, rel_mono hrel (by simp [step]; omega)⟩
-  | span id root size =>
+  | span id root size kind =>
     have h' := h
     obtain ⟨h1, h2, h3, h4, h5, h6⟩ := h
     simp only [step, processSpan]
     cases hg : AList.get s.buf id with
     | some tr =>
       obtain ⟨hnd, a, ha, hrel⟩ := h4 id tr hg
-      exact inv_addSpan h' id tr a root size hnd hrel (by simp [Spec.arrOf, ha])
+      exact inv_addSpan h' id tr a root size kind hnd hrel (by simp [Spec.arrOf, ha])
     | none =>
       by_cases hdec : id ∈ s.decided
       · simp only [hdec, if_true]
@@ -400,7 +400,7 @@ theorem inv_step {c : Cfg} {s : St} {sp : Spec} (h : Inv c s sp) (o : Op) :
           | some a => exact absurd (h5 id hg (by simp [ha])) hdec
         have ht := effTimeout_pos c
         refine inv_addSpan h' id _ { first := sp.now, rootAt := none, limitAt := none, count := 0 }
-          root size hdec ?_ (by simp [Spec.arrOf, hnone])
+          root size kind hdec ?_ (by simp [Spec.arrOf, hnone])
         refine ⟨h2, rfl, rfl, (by simp [h2]), (fun r hr => by cases hr), (fun l hl => by cases hl), ?_, ?_⟩
         · simp
         · simp [documentedWith, h1, h2]
@@ -656,7 +656,7 @@ theorem backlog_addSpan_le (s : St) (hwf : AList.NoDupKeys s.buf) (D : Int) (hD 
 theorem step_now_le (s : St) (o : Op) : s.now ≤ (step s o).1.now := by
   cases o with
   | adv d => simp [step]; omega
-  | span id root size =>
+  | span id root size kind =>
     simp only [step, processSpan]
     split
     · exact Int.le_refl _
